@@ -56,7 +56,8 @@ Inductive dstage :=
 | DTop (n : Z).
 
 Inductive dpipe := DNumbers (n : Z) | DList (l : list Z) | DStage (s : dstage) (p : dpipe) | DApp (p q : dpipe)
-| DCross (id : N) (g : dfn2) (p q : dpipe) | DMerge (id : N) (less : dpr2) (p q : dpipe).
+| DCross (id : N) (g : dfn2) (p q : dpipe) | DMerge (id : N) (less : dpr2) (p q : dpipe)
+| DThrough (ctx : N) (p : dpipe).
 
 Inductive dterm :=
 | DTNone | DTFirst | DTSingle | DTSize
@@ -83,6 +84,7 @@ Fixpoint den_pipe (p : dpipe) : pipe :=
   | DApp p1 p2 => PApp (den_pipe p1) (den_pipe p2)
   | DCross id g p1 p2 => PCross id (den_fn2 g) (den_pipe p1) (den_pipe p2)
   | DMerge id e p1 p2 => PMerge id (den_pr2 e) (den_pipe p1) (den_pipe p2)
+  | DThrough c p' => PThrough c (den_pipe p')
   end.
 
 Definition den_term (t : dterm) : term :=
